@@ -207,7 +207,7 @@ RW_STALLS = RT_STALLS + ["RW_HANDOFF"]
 
 
 def fb_plan(tier, seed, binary, sub, stalls, trials_q, trials_t, threads_q=(1, 2, 4, 16), threads_t=(1, 2, 3, 4, 8, 16), extra=None,
-            stall_every=5, tsan=False, pinned=True, tsan_judged=True):
+            stall_every=5, tsan=False, pinned=True, tsan_judged=True, long_stalls=()):
     """generic plan for a fiber-runtime scenario family"""
     q = tier == "quick"
     extra = extra or {}
@@ -240,6 +240,13 @@ def fb_plan(tier, seed, binary, sub, stalls, trials_q, trials_t, threads_q=(1, 2
         for mode in ("monitor", "jitter"):
             k += 1
             runs.append(fb(binary, "mon", sub, seed, k, thr, mode=mode, preempt=1, trials=trials, **extra))
+    # a waiter held between announcing itself and becoming visible to its waker for far longer than any plausible bound on the wait
+    # for it (1.2..2 s, a handful of times per run): however long it takes, the wake-up must reach it
+    for i, sp in enumerate(long_stalls):
+        for thr in ((2 + 2 * (i % 2),) if q else (2, 4, 8)):
+            k += 1
+            runs.append(fb(binary, "mon", sub, seed, k, thr, mode="stall", stall_point=sp, stall_every=3000 if q else 1500, stall_us_lo=1200000,
+                           stall_us_hi=2000000, trials=max(3, trials // 3), **extra))
     if tsan:
         for thr in (((2, 4) if tsan_judged else (4,)) if q else (2, 4, 8)):
             k += 1
@@ -284,7 +291,8 @@ def _c03(tier, seed):
 
 
 def c05(tier, seed):
-    return dict(runs=fb_plan(tier, seed, "h_sync", "cond", COND_STALLS, 30, 200, tsan=True, tsan_judged=False, extra=dict(livelock_prop="C05")),
+    return dict(runs=fb_plan(tier, seed, "h_sync", "cond", COND_STALLS, 30, 200, tsan=True, tsan_judged=False, extra=dict(livelock_prop="C05"),
+                             long_stalls=("WAIT_MPSC_PRE_PUSH",)),
                 rule=TRIAL_RULE + "Credit ledger under the user mutex: signal while a waiter is registered gives one credit, broadcast one per registered "
                 "waiter; every return from fiber_cond_wait must own the mutex and consume a credit; at the end credits==0 and nobody is blocked "
                 "(quiescence => lost signal). No predicate loops. distinct_nontrivial = distinct (waiters, signallers, waits, mode, window-hit) tuples.",
@@ -293,7 +301,8 @@ def c05(tier, seed):
 
 
 def c06(tier, seed):
-    runs06 = fb_plan(tier, seed, "h_sync", "sem", ["MAINT_PUBLISH", "MPMC_PUSH_MID", "WAIT_MPMC", "SWITCH_PRE", "SWITCH_POST", "SCHEDULED", "SEM_POST_MID"], 48, 200, tsan=True, tsan_judged=False, extra=dict(livelock_prop="C06"))
+    runs06 = fb_plan(tier, seed, "h_sync", "sem", ["MAINT_PUBLISH", "MPMC_PUSH_MID", "WAIT_MPMC", "SWITCH_PRE", "SWITCH_POST", "SCHEDULED", "SEM_POST_MID"], 48, 200, tsan=True, tsan_judged=False, extra=dict(livelock_prop="C06"),
+                     long_stalls=("WAIT_MPMC",))
     for r in runs06:
         if r.variant == "tsan":
             r.args["mutexlike"] = 1
@@ -305,7 +314,8 @@ def c06(tier, seed):
 
 
 def c07(tier, seed):
-    return dict(runs=fb_plan(tier, seed, "h_sync", "rwlock", RW_STALLS, 45, 200, tsan=True, tsan_judged=False, extra=dict(livelock_prop="C07")),
+    return dict(runs=fb_plan(tier, seed, "h_sync", "rwlock", RW_STALLS, 45, 200, tsan=True, tsan_judged=False, extra=dict(livelock_prop="C07"),
+                             long_stalls=("WAIT_MPSC_PRE_PUSH",)),
                 rule=TRIAL_RULE + "Oracles: writer alone (atomic occupancy of readers/writers on entry and exit), shared data unchanged during a read "
                 "section, try variants never context-switch, state word 0 at the end, stranded waiter at quiescence.",
                 min_events={"rw_read_sections_shared_with_other_readers": 10, "rw_write_sections": 50, "rw_trywr_fail": 1, "lib_wake_mpsc_spin_count": 1},
@@ -519,6 +529,12 @@ def c04(tier, seed):
     for sc in range(8):
         k += 1
         runs.append(fb("h_join", "mon", "join", seed, k, 4 if q else 8, mode="jitter", trials=30 if q else 300, scenario=sc, livelock_prop="C04"))
+    # few trial drivers on many kernel threads: the idle threads steal the actors, so the two users of a handle really run in
+    # parallel (with as many drivers as threads everything stays on the thread that created it)
+    for sc in (3, 5):
+        for thr, drv in (((8, 3),) if q else ((8, 3), (16, 4), (4, 1))):
+            k += 1
+            runs.append(fb("h_join", "mon", "join", seed, k, thr, mode="monitor", trials=3000 if q else 20000, drivers=drv, scenario=sc, livelock_prop="C04"))
     return dict(runs=runs,
                 rule="a case = one scenario trial: one target fiber (random pre-delay, unique return token, gated alive when a second use of its "
                 "handle is generated) and 1-2 actors with random delays, 8 trial drivers running concurrently; classes S1 join x finish, S2 repeated "
